@@ -168,6 +168,7 @@ func pumpDemo(kind string, one bool) (bool, string) {
 func pumpDemoRun(kind string, one bool) (bool, string) {
 	markCaseStart()
 	client := newAtomixClient()
+	defer forgetParked() // the demonstration leaves its pump parked
 	defer client.Close()
 	a, err := newAPI(kind, client)
 	if err != nil {
